@@ -99,7 +99,7 @@ def judgeCoord (s : St) (boundsOK : Bool) (c : C) : Option (String × String) :=
   else if c.vec.length != s.cfg.dim then
     some ("dim-changed", s!"the client's coordinate has {c.vec.length} dimensions, configured {s.cfg.dim}")
   else if cfgOK s.cfg && boundsOK && !(decide (s.cfg.heightMin ≤ c.height)) then
-    some ("height-below-min", s!"height {c.height} below HeightMin {s.cfg.heightMin}")
+    some ("height-below-min", s!"height {c.height} (bits {showFloatBits c.height}) below HeightMin {s.cfg.heightMin} (bits {showFloatBits s.cfg.heightMin})")
   else if cfgOK s.cfg && boundsOK && !(decide (0 ≤ c.error) && decide (c.error ≤ s.cfg.errorMax)) then
     some ("error-out-of-range", s!"error {c.error} outside [0, {s.cfg.errorMax}] although all accepted peers reported non-negative errors")
   else none
